@@ -171,6 +171,18 @@ def inviteAccepted (d : Defects) (t : Table) (tt : TokenType) (peerKey : Key) (p
 /-- the invitation `id` can still be reached through some token -/
 def reachable (t : Table) (id : Nat) : Bool := t.any fun e => inviteIdOf e.2 == some id
 
+def isAllowedEntry : TokenType → Bool | .allowedPeer _ => true | _ => false
+def isOwnedEntry : TokenType → Bool | .ownedInvite _ => true | _ => false
+def isInviteEntry : TokenType → Bool | .invite _ => true | _ => false
+
+/-- restart: `PeerManager::new` rebuilds the table from storage — the allowed peers, then the owned
+    invitations, then the accepted invitations (peer_manager.rs:88-117). Every entry of the table is
+    persisted when it is added and deleted from storage when it is removed (`AllowedPeer::add`,
+    `Invite::create` / `OwnedInvite::delete`, `Invite::insert` / `Invite::delete`), and `accept_invite`
+    stores an invitation only AFTER the application check: storage holds exactly the table's entries. -/
+def restart (t : Table) : Table :=
+  t.filter (fun e => isAllowedEntry e.2) ++ t.filter (fun e => isOwnedEntry e.2) ++ t.filter (fun e => isInviteEntry e.2)
+
 /-! ### driver (shared with the harness op files, see harness/serve/src/c19.rs) -/
 namespace Drv
 open Discret.Proto
@@ -277,6 +289,7 @@ def stepOp (s : St) (kind : String) (toks : List String) : St × String :=
       | _, _, _ => (s, "bad-op")
     | some "bytes" => (s, "err:decode")
     | _ => (s, "bad-op")
+  | "pm-restart" => ({ s with table := restart s.table }, "ok")
   | "tok-sym" =>
     match nat? toks "a", nat? toks "b" with
     | some a, some b => (s, if token a (pubOf b) = token b (pubOf a) then "sym 1" else "sym 0")
